@@ -127,6 +127,11 @@ class Ctx:
             shutil.copy("/repo/Cargo.lock", lock)
         env = dict(os.environ)
         env["CARGO_NET_OFFLINE"] = "true"
+        tdir = os.path.join(hdir, "target")
+        if alt and os.environ.get("VERIF_TARGET_DIR"):
+            # developer aid: a target directory shared by successive scratch copies (dependencies are built once)
+            tdir = os.environ["VERIF_TARGET_DIR"]
+            env["CARGO_TARGET_DIR"] = tdir
         cmd = ["cargo", "build", "--offline", "--quiet", "--bin", bin]
         if profile == "release":
             cmd.append("--release")
@@ -138,7 +143,7 @@ class Ctx:
             print(p.stdout[-6000:])
             raise ToolError("cargo build failed (profile %s, bin %s)" % (profile, bin))
         self.log("built %s profile=%s in %.1fs" % (bin, profile, time.time() - t))
-        return os.path.join(hdir, "target", profile, bin)
+        return os.path.join(tdir, profile, bin)
 
     def harness(self, binary, args, stdin_path=None, stdout_path=None, timeout=3600, env=None, ok_codes=(0,)):
         e = dict(os.environ)
